@@ -16,7 +16,7 @@
 //
 // Oracle (the statement's "two such routers can peer over loopback" and "stopping
 // returns success with no worker left running", for a router that has been running
-// for a while): two minute ticks after the last fault every configured pair has a
+// for a while): three minute ticks after the last fault every configured pair has a
 // link on both sides again; Stop of every instance returns true; no goroutine of
 // the bubble is left.
 package c20
